@@ -24,6 +24,14 @@ def check(ctx, src):
     f = mod.func("hy_eval_user")
     ctx.require(f is not None, "hy_eval_user not found")
     ctx.functions.add(f"{REL}:hy_eval_user")
+    # the binding of 'hy' in the user's namespace, decided by running the function on a finite abstract domain: for the key
+    # absent / truthy / falsy / None before the call, and the evaluation returning, raising after it bound `hy`, or raising
+    # before, the namespace must be left as it was and the evaluation's value returned (hyverif/absint.py)
+    from .. import absint
+    dn = "locals" if any(a.arg == "locals" for a in f.args.args) else None
+    v_ai, why_ai = absint.check_restore(f, dn, "hy", "hy_eval") if dn else (None, "no `locals` parameter")
+    ctx.decide("EVAL-RESTORE", f"{REL}|hy_eval_user|abstract run", v_ai, f"hy.eval does not leave the user's binding of `hy` as it found it: {why_ai}", REL, f.lineno,
+               witness="(hy.eval '1 :locals d) with d = {'hy': None} / {'hy': 0} / without 'hy', also when the evaluated code raises", detail="save, evaluate, restore on every exit", robust=True)
     body = pyq.body_without_doc(f)
     calls = [c for c in pyq.calls(f) if dotted(c.func) == "hy_eval"]
     ctx.need(len(calls) == 1, f"expected exactly one hy_eval call in hy_eval_user, found {len(calls)}")
